@@ -165,7 +165,7 @@ def scenarios(draw, *, max_machines=6, max_obs=4, max_nodes=6,
               modes=('roomy', 'band'), delays=False, units=False,
               adversary=False, delay_model=False, min_obs=1,
               start_gaps=(0, 0, 0, 1, 1, 2, 3, 5, 10), max_duration=6,
-              few_machines=False, piled_plans=False, overlap=False, limit_binds=False, unsorted=False, long_durations=False, b2b=False):
+              few_machines=False, piled_plans=False, overlap=False, limit_binds=False, unsorted=False, long_durations=False, b2b=False, twins=False):
     nm = draw(st.integers(2 if overlap else 1, 3 if few_machines else max_machines))
     hetero = draw(st.booleans())
     speeds = (1, 2, 5, 10, 20)
@@ -239,6 +239,10 @@ def scenarios(draw, *, max_machines=6, max_obs=4, max_nodes=6,
                 duration = draw(st.sampled_from([12, 20, 33, 47]))     # sizes are generation bounds, not code limits
             rate = draw(st.sampled_from([1, 2, 3, 5, 10]))
             demand = draw(st.sampled_from([d for d in ((1, 2) if (overlap or limit_binds) else (1, 2, 4, 8)) if d <= arrays]))
+        if twins and i > 0 and mode not in ('band', 'bandov') and draw(st.booleans()):
+            # same planned start and same duration as the previous observation: they begin, stop ingesting and finish together
+            t = obs[-1]['start'] // u
+            duration = obs[-1]['duration'] // u
         o = {"name": names[i], "start": t * u, "duration": duration * u, "demand": demand,
              "rate": rate, "ingest": draw(st.integers(1, min(max_ingest, (max(1, max_ingest // 2) if overlap else max_ingest)
                                                                  if not limit_binds else draw(st.sampled_from([1, 1, 2]))))),
